@@ -532,6 +532,10 @@ def finish(g, viol, probes, case, extra_faults=None):
             "detail": "exception escaped into the reactor:\n" + R.errors[0][1][-1500:]})
     faults = dict(g.net.fired)
     faults.update(extra_faults or {})
+    c17 = getattr(g, "c17_monitor", None)
+    if c17 is not None:
+        c17.check_secrets(None)          # lease secrets of every allocate_buckets / add_lease seen on the wire
+        probes["lease-secret-messages-checked"] = probes.get("lease-secret-messages-checked", 0) + c17.checked
     for nm in R.logged_errors:
         probes["logged-error-" + nm] = probes.get("logged-error-" + nm, 0) + 1
     focus = case.get("focus")
@@ -1342,6 +1346,8 @@ def exec_upfault(case):
     share_alloc = len(sharecheck.split_container(originals[0])[1])
     R.reset_sim()
     g = Grid(case["seed"], os.path.join(base, "grid"), cfg["net"])
+    if focus == "C17":
+        g.c17_monitor = Monitors(g, viol)
     os.makedirs(g.basedir, exist_ok=True)
     mon = SeamMonitor(viol, probes, g.ch)
     try:
@@ -1467,6 +1473,8 @@ def gen_checkrepair(seed, tier, focus="C45"):
     case["profile"] = "checkrepair"
     case["ops"] = [["check", ch.chance("workload", "verify1", 0.6)], ["repair", ch.chance("workload", "verify2", 0.7)]]
     cfg["badseg"] = None
+    cfg["add_lease"] = ch.chance("workload", "add-lease", 0.35 if focus != "C17" else 1.0)
+    case["focus"] = focus
     return case
 
 
@@ -1488,6 +1496,8 @@ def exec_checkrepair(case):
 
     k, n = cfg["k"], cfg["n"]
     g = Grid(case["seed"], base, {"lat_profile": "fifo", "base_lat": 0.001})
+    if case.get("focus") == "C17":
+        g.c17_monitor = Monitors(g, viol)
     try:
         nsrv = max(n, cfg["nservers"])
         for i in range(nsrv):
@@ -1565,7 +1575,7 @@ def exec_checkrepair(case):
         before_files = {(s.name, shnum): raw for s in g.servers for shnum, raw in s.shares_of(si).items()}
         # ---- check
         verify = case["ops"][0][1]
-        stc, cr = run(vnode.check(Monitor(), verify=verify))
+        stc, cr = run(vnode.check(Monitor(), verify=verify, add_lease=bool(cfg.get("add_lease"))))
         if stc != "ok":
             bad("check-failed", "check(verify=%s) %s: %s" % (verify, stc, cr.getTraceback()[-600:] if stc == "err" else ""),
                 sig="C45.check-failed." + (err_name(cr) if stc == "err" else "hung"))
@@ -1595,7 +1605,7 @@ def exec_checkrepair(case):
         # ---- repair through the verify-cap only
         verify2 = case["ops"][1][1]
         vnode2 = ck.create_node_from_uri(vcap)
-        str_, crr = run(vnode2.check_and_repair(Monitor(), verify=verify2))
+        str_, crr = run(vnode2.check_and_repair(Monitor(), verify=verify2, add_lease=bool(cfg.get("add_lease"))))
         truth2 = lenient_where if verify2 else present
         after_files = {(s.name, shnum): raw for s in g.servers for shnum, raw in s.shares_of(si).items()}
         # existing good shares must not be altered (share bytes; leases may be added)
